@@ -200,6 +200,8 @@ def cmd_run(pid, tier):
             print(f"  signature: {sig}")
             print(f"  message: {v['message'][:600]}")
             rc = 1
+    for u in R.get("unreproduced") or []:
+        print(f"NOTE: failure observed once but not reproduced when its choice list was replayed alone (3 attempts), not reported: {u}")
     if R.get("machinery_errors"):
         print(f"MACHINERY-ERROR: {R['machinery_errors']} (nondeterminism / replay divergence); see stderr")
         if rc == 0:
@@ -223,7 +225,8 @@ def cmd_run(pid, tier):
     cov.update(executions=R["executions"], choice_nodes=R["choice_nodes"], sched_steps=R["sched_steps"],
                thread_switches=R["switches"], scenarios=R["scenario_stats"], exhaustive=bool(R["exhaustive"]),
                determinism_replay_ok=bool(R["determinism_ok"]), vacuous_scenarios=R["vacuous_scenarios"],
-               notes=R.get("notes", {}), known_findings_matched=nknown, technique=c["technique"])
+               notes=R.get("notes", {}), known_findings_matched=nknown, technique=c["technique"],
+               unreproduced_observations=R.get("unreproduced") or [])
     evd = dict(property_id=pid, tier=tier, seed=int(os.environ.get("VERIF_SEED", "0") or 0), level=level,
                coverage=cov,
                assumptions=[
